@@ -244,14 +244,14 @@ def run_selftest(prop, root, mod, jobs=16):
             continue
         variants.append((prop, root, 'refactor ' + os.path.basename(d), overlay, None, 'twin'))
     # mechanical whole-tree rewrites (fimsa.metamorph): twins for every property; and every mutant / seeded change once more
-    # under two of the rewrites - detection must not depend on names, polarity of tests, temporaries or method order
+    # under three of the rewrites - detection must not depend on names, polarity of tests, temporaries or method order
     try:
         from . import metamorph
         mm = metamorph.overlays(root)
         broken = [v for v in variants if v[5] in ('mutant', 'seeded')]
         for name, overlay in mm.items():
             variants.append((prop, root, 'metamorph ' + name, overlay, None, 'twin'))
-        for tname in ('rename-locals', 'combo'):
+        for tname in ('rename-locals', 'combo', 'combo2'):
             for v in broken:
                 variants.append((prop, root, f'{v[2]} + {tname}', metamorph.transform_overlay(root, v[3], tname, base=mm[tname]), None, v[5]))
     except Exception as e:  # pragma: no cover
